@@ -74,7 +74,8 @@ theorem C02_job_accounting (inp : RunInput) (s : Sys) (hr : PReach inp s) (t : N
 
 /-- nothing outside the closure of the selection is ever touched: every event of a run — `get_status`, the skip /
     failure / success reports, `execute_task`, action start and end, teardown — names a member of `Cl inp`, the least
-    set containing the selection and closed under task_dep, calc_dep, what a member delivers as calc result, and the
+    set containing the selection and closed under task_dep, calc_dep, what a member delivers as calc result (also what
+    it returned before its execution failed: `_process_calc_dep_results` does not look at `run_status`), and the
     setup-tasks of members that are neither ignored nor up-to-date (`MayRun`).  (`Cl` is static: it over-approximates
     the run-dependent closure that the monitor `monC02InsideClosure` computes from a trace.) -/
 def InsideClosure (inp : RunInput) (reach : Sys → Prop) : Prop :=
@@ -109,6 +110,7 @@ theorem C02_closure_excludes_lazy_setup : ¬ Cl exUtd 1 := by
     | ofCalc _ h => simp [exUtd] at h
     | ofSetup _ hm _ => simp [MayRun, effStatus, exUtd] at hm
     | ofRes _ h => simp [exUtd] at h
+    | ofResFail _ h => simp [exUtd] at h
   have := key 1 h; cases this
 
 /-- C02 (completeness part) for the serial runner: if the run ends because the dispatcher has nothing left — it was
@@ -177,5 +179,21 @@ example : ∃ s, PReach exShared s ∧ s.rpc = .halted ∧ s.halt = .none ∧ s.
   ⟨_, autoRun_preach (by decide) false true 600 _ PReach.init, by decide +kernel, by decide +kernel,
     by decide +kernel,
     RunCl.ofSetup (t := 1) (deps := [0, 4]) (RunCl.ofSel (by decide)) (by decide +kernel) (by decide)⟩
+
+/-- task `0` (selected) has the calc_dep `1`; `1` returns `{'task_dep': [2]}` from its first action and fails in a later
+    one; `--continue` -/
+def exFailDeliver : RunInput :=
+  { taskDep := fun _ => [], calcDep := fun n => if n = 0 then [1] else [], setup := fun _ => [],
+    sel := [0], continue_ := true, outcome := fun n => if n = 1 then .failed else .ok,
+    calcResFail := fun n => if n = 1 then { tasks := [2] } else {} }
+
+/-- the delivery of a FAILED calc task's values is part of the model (`deliverF`): `2` is created and executed on
+    account of what the failed `1` returned, `0` is reported unmet and never starts — and `2` is a member of `Cl` only
+    through `Cl.ofResFail` -/
+example : ∃ s, Reach exFailDeliver s ∧ s.events.contains Ev.complete = true ∧
+    s.events.countP (Ev.isStartOf 2) = 1 ∧ s.events.countP (Ev.isStartOf 0) = 0 ∧
+    s.events.contains (Ev.failure 0 .unmet) = true ∧ s.events.contains (Ev.failure 1 .failed) = true :=
+  ⟨_, autoRun_reach (by decide) false false 600 _ Reach.init, by decide +kernel, by decide +kernel,
+    by decide +kernel, by decide +kernel, by decide +kernel⟩
 
 end DoitModel.C02
